@@ -75,7 +75,7 @@ def _file_body(draw, heads, globals_all, file_labels, depth, files_left, marker)
             # a constant, global or file-scoped, in the middle of a region: it is no label and leaves the region open
             marker['nk'] = marker.get('nk', 0) + 1
             kname = draw(st.sampled_from(['_kf', 'kg'])) + str(marker['nk']) + ('' if depth == 0 else 'i' * depth + str(len(files_left)))
-            body.insert(draw(st.integers(0, len(body))), {'t': 'const', 'name': kname, 'e': ['num', draw(st.integers(0, 99)), 'dec'],
+            body.insert(draw(st.integers(0, len(body))), {'t': 'const', 'name': kname, 'e': ['num', draw(st.sampled_from([0, 0, 1, 7, 99])), 'dec'],
                                                            'eq': draw(st.sampled_from(['=', 'EQU']))})
         if draw(st.integers(0, 3)) == 0:
             # a non-local label in a block that is not compiled: it defines nothing and opens no region
@@ -163,7 +163,8 @@ def _cases(draw, tier):
         items = inject(draw, items, fault)
         if items is None:
             return {'skip': 'fault not applicable to this program'}
-    return {'isa': cfg, 'items': items, 'fault': fault, 'lo': 0, 'fill': 0, 'join_labels': draw(st.sampled_from([0, 0, 0, 0, 1, 2]))}
+    return {'isa': cfg, 'items': items, 'fault': fault, 'lo': 0, 'fill': 0, 'join_labels': draw(st.sampled_from([0, 0, 0, 0, 1, 2])),
+            'mute_all': bool(fault) and draw(st.integers(0, 3)) == 0}
 
 
 def _files(items, name='main.asm', out=None):
@@ -353,6 +354,10 @@ def execute(case, ctx):
                         out2.append(line)
                 out = out2
             files[k] = '\n'.join(out)
+    if case.get('mute_all') and verdict != 'accepted':
+        # the faulty program with its output muted from the first line on: no byte reaches the image, and every name is
+        # still resolved (or not) exactly as before
+        files['main.asm'] = '#mute\n' + files['main.asm']
     argv = ['compile', '-c', fname, '-o', 'out.bin', '-s', str(lo), '-e', str(hi), 'main.asm']
     res = runner.run_forked(argv, files)
     fault = case.get('fault')
@@ -372,6 +377,7 @@ def execute(case, ctx):
     nt = bool(fault) or multi_scope_reference(case['items'])
     classes = ['model:' + verdict, 'outcome:' + res.klass, 'fault:' + str(fault), 'files:%d' % len(detail['sources'])] + \
               (['labels-joined-with-the-following-line'] if case.get('join_labels') else []) + \
+              (['faulty-program-muted-from-the-first-line'] if case.get('mute_all') and verdict != 'accepted' else []) + \
               (['several-labelled-statements-on-one-line'] if case.get('join_labels') == 2 else [])
     if verdict != 'accepted':
         classes.append('reject-reason:' + lay.split(' ')[0] + ' ' + ' '.join(lay.split(' ')[1:3]))
